@@ -91,6 +91,14 @@ def gen_emu(rng: random.Random, tier: str, family: str | None = None):
     if fam in ("rabi", "idle", "noisyidle"):
         case["n"] = n = 1
         chans = [rng.choice([("ryd", "rydberg_global"), ("ram", "raman_global"), ("rl", "rydberg_local"), ("ml", "raman_local"), ("mw", "mw_global")])]
+    if fam in ("rabi", "idle", "noisyidle") and chans[0][1] != "mw_global" and rng.random() < 0.5:
+        # a second channel that is declared but never used: its samples are one
+        # long constant stretch (the default max_step must still follow the
+        # busiest channel)
+        main = chans[0]
+        spare = rng.choice([("sp", "raman_global"), ("sp", "rydberg_local")] if main[1] == "rydberg_global"
+                           else [("sp", "rydberg_global"), ("sp", "raman_local" if main[1] != "raman_local" else "rydberg_local")])
+        chans = [main, spare]
     if fam == "noisyidle" and chans[0][1] == "mw_global":
         chans = [("ryd", "rydberg_global")]  # amplitude noise is not emulated in XY mode
     if fam == "stoch" and rng.random() < 0.8:
@@ -238,6 +246,17 @@ def gen_emu(rng: random.Random, tier: str, family: str | None = None):
     for o in case["ops"]:
         if o["op"] == "target":
             o["q"] = o["q"] % case["n"]
+    # a custom device that carries a default noise model; the V2 configuration
+    # prefers it or not (the analytic families never do)
+    if fam in ("random", "noisy", "evtimes", "zero", "rabi", "idle") and rng.random() < 0.25:
+        groups = {("x" if c[1] == "mw_global" else "r" if c[1].startswith("rydberg") else "d") for c in chans}
+        dopts = [dict(dephasing_rate=0.5, hyperfine_dephasing_rate=0.25)]
+        if len(groups) == 1:
+            dopts.append(dict(depolarizing_rate=0.5))
+        if groups == {"r"}:
+            dopts.append(dict(relaxation_rate=0.5, dephasing_rate=0.25))
+        case["device_noise"] = rng.choice(dopts)
+        case["prefer"] = (rng.random() < 0.5) if fam not in ("rabi", "idle", "zero") else False
     # a user-supplied initial state (un-normalised on purpose), in every accepted form
     if fam in ("random", "noisy", "evtimes") and rng.random() < 0.45:
         tmp = dict(case, ops=ops)
@@ -369,8 +388,18 @@ def gen_hist(rng: random.Random, tier: str):
     return case
 
 
+def gen_flip(rng: random.Random, tier: str):
+    """detection errors on a classical state: the JOINT distribution of the
+    read bitstring (every atom flips independently)"""
+    n = rng.choice([2, 2, 3])
+    return dict(kind="flip", n=n, index=rng.randrange(2**n), pfp=rng.choice([0.125, 0.25, 0.5]),
+                pfn=rng.choice([0.125, 0.25, 0.375]), shots=600, seed=rng.randrange(1 << 30))
+
+
 def gen_case(rng: random.Random, tier: str):
     k = rng.random()
+    if k >= 0.97:
+        return gen_flip(rng, tier)
     if k < 0.45:
         return gen_emu(rng, tier)
     if k < 0.70:
